@@ -68,7 +68,7 @@ def _group1(msg: str) -> BaseException:
 FAIL_CLASSES = {"SimError": SimError, "SimLookup": SimLookup, "SimTimeout": SimTimeout, "group1": _group1}
 
 NAME = "components"
-PROPS = ("C05", "C06", "C07", "C14", "C02", "C12", "C18", "C03", "C09", "C11")
+PROPS = ("C05", "C06", "C07", "C14", "C02", "C12", "C18", "C03", "C09", "C11", "C19")
 RT = compreg.RTYPES
 
 
@@ -423,7 +423,17 @@ class H:
             sim.log("fail", path=path, phase="creating", tag=e.tag)  # type: ignore[attr-defined]
             raise e
 
-    async def on_phase(self, inst: Any, phase: str) -> None:
+    def eager_start(self, inst: Any) -> int:
+        """The synchronous part of a plain start(): the leading publications of the phase."""
+        path, n = self.by_cls[type(inst)]
+        k = 0
+        acts = n.get("start") or ()
+        while k < len(acts) and acts[k][0] == "pub":
+            self.pub(acts[k][1], path, "start")
+            k += 1
+        return k
+
+    async def on_phase(self, inst: Any, phase: str, skip: int = 0) -> None:
         sim = self.sim
         path, n = self.by_cls[type(inst)]
         self.cctx[path] = current_context()
@@ -431,7 +441,7 @@ class H:
         how = "done"
         self.in_phase[path] = phase
         try:
-            await self.acts(n.get(phase) or (), path, n, phase)
+            await self.acts((n.get(phase) or ())[skip:], path, n, phase)
         except BaseException as e:
             how = "cancelled" if is_cancel(e) else "failed"
             raise
@@ -570,6 +580,20 @@ class H:
             sim.probe("handled_conflict")
         else:
             sim.log("note", what="conflict_not_raised", rid=rid)
+
+        # ... and one that is rejected for another reason (an invalid name, no value)
+        def rogue2() -> None:
+            sim.log("td_run", td=f"rogue_{rid}_invalid")
+
+        try:
+            if spec.get("invalid") == "none":
+                add_resource(None, "nv_" + rid, [RT[spec["t"]]], teardown_callback=rogue2)
+            else:
+                add_resource(self.val(f"bad2_{rid}"), "not a valid name!", [RT[spec["t"]]], teardown_callback=rogue2)
+        except (ValueError, TypeError):
+            sim.probe("handled_invalid_add")
+        else:
+            sim.log("note", what="invalid_add_not_raised", rid=rid)
 
     def pub(self, spec: dict, path: str, phase: str) -> None:
         sim = self.sim
@@ -753,9 +777,9 @@ class H:
                 sim.log("svc_end", svc=name)
 
         if spec.get("action") == "none":
-            ret = await start_service_task(body, name, teardown_action=None)
+            ret = await start_service_task(body, spec.get("display", name), teardown_action=None)
         else:
-            ret = await start_service_task(body, name)
+            ret = await start_service_task(body, spec.get("display", name))
         sim.log("svc_reg", svc=name, path=path, ret=ret)
 
     async def tf(self, spec: dict, path: str) -> None:
@@ -1711,6 +1735,14 @@ def oracle(sim: Sim, plan: dict) -> list[dict]:
 
         # ---------------------------------------------------------------- C06 waits
         published: dict[tuple, dict] = {}
+        wspec_by_wid = {
+            w_["wid"]: w_
+            for _p, n_ in nodes.items()
+            for ph_ in ("prepare", "start")
+            for a_ in n_.get(ph_) or ()
+            if a_[0] in ("wait", "pwait")
+            for w_ in ([a_[1]] if a_[0] == "wait" else a_[1])
+        }
         pend: dict[str, dict] = {}
         products: dict[str, str] = {}
         for r in tr:
@@ -1735,6 +1767,15 @@ def oracle(sim: Sim, plan: dict) -> list[dict]:
                 if w is None:
                     continue
                 where = f"{w['path']}: get_resource({w['type']},{w['name']!r})"
+                if d["out"] == "cancelled" and w["had"] and not w["opt"] and w["pub"] is not None and not w["pub"]["fac"]:
+                    # the (plain) resource was there when the component asked: that lookup does
+                    # not suspend, so nothing could have cancelled it
+                    via_ = wspec_by_wid.get(d["wid"], {}).get("via")
+                    msg_ = f"{where}: the resource was already there, yet the call suspended (and was cancelled later) instead of returning it like every other lookup path does"
+                    v("C02.lookup", "component_lookup_suspended_on_present", msg_)
+                    v("C06.late_wakeup", "present_but_waited", msg_)
+                    if via_ == "inject":
+                        v("C19.equiv", "component_lookup_suspended_on_present", msg_)
                 if d["out"] in ("cancelled", "gaveup"):
                     continue
                 if d["out"] != "ok":
@@ -2126,7 +2167,7 @@ class G:
         rng = self.rng
         order = self.linear("", tree)
         avail: list = []  # (type index, final name, is factory, fdur)
-        wprob = {"C06": 0.5, "C05": 0.3, "C07": 0.25, "C14": 0.12}.get(self.prop, 0.25)
+        wprob = {"C06": 0.5, "C05": 0.3, "C07": 0.25, "C14": 0.12, "C19": 0.45}.get(self.prop, 0.25)
         for path, n, phase in order:
             acts: list = []
             here: list = []
@@ -2140,7 +2181,7 @@ class G:
                     w: dict[str, Any] = {"wid": f"w{self.nw}", "t": ti, "name": nm}
                     if rng.random() < 0.12 and not fdur:
                         w["opt"] = True
-                    if rng.random() < 0.15:
+                    if rng.random() < (0.6 if self.prop == "C19" else 0.15):
                         w["via"] = "inject"
                     elif rng.random() < 0.1 and "opt" not in w:
                         w["via"] = "parent_ctx"
@@ -2182,7 +2223,7 @@ class G:
                         # publish late, so that waiters are usually already parked
                         acts.append(["p", rng.choice((0, 1, 2, 3)), rng.choice((0.0, 0.25, 0.5, 1.0, 2.0))])
                     if not spec.get("fac") and rng.random() < 0.12:
-                        acts.append(["conflict_handled", {"rid": spec["rid"], "t": spec["t"], "name": spec["name"]}])
+                        acts.append(["conflict_handled", {"rid": spec["rid"], "t": spec["t"], "name": spec["name"], "invalid": rng.choice(("name", "none"))}])
                     if self.prop == "C06":
                         rs = rng.random()
                         if rs < 0.1:
@@ -2216,6 +2257,10 @@ class G:
                         sv["tail"] = rng.choice((0.5, 1.0, 2.0))
                     if sv.get("action") == "none" and rng.random() < 0.6:
                         sv["own_td"] = rng.choice((0.25, 0.5, 1.0))
+                    if rng.random() < 0.35:
+                        # names of service tasks are descriptive, not unique: several
+                        # components (instances of one class, say) use the same one
+                        sv["display"] = "worker"
                     acts.append(["svc", sv])
                 elif r < 0.915 and self.ntf < 2 and self.prop in ("C05", "C07", "C09"):
                     self.ntf += 1
